@@ -344,11 +344,12 @@ theorem C12_group_conv (P : Prims) (L : PrimLaws P) (E : Env) (d : Bool) (t : Ta
     have fin : ∀ n : Int, (n = 0 ∨ n = 1) → eqSmall v n = .ok true →
         GroupLaw .bool v r ∨ (deviation .bool v).isSome = true := by
       intro n hn he
-      rcases eqSmall_spec v n hn he with ⟨b, rfl⟩ | ⟨c, rfl⟩ | hz
+      rcases eqSmall_spec v n he with ⟨b, rfl, _⟩ | ⟨c, rfl⟩ | hz
       · grp
       · rcases hn with rfl | rfl <;> grp
       · right
-        cases v <;> simp [isZeroOneValue] at hz <;> simp [deviation, isZeroOneValue, hz]
+        have : isZeroOneValue v = true := by rcases hn with rfl | rfl <;> simp [isZeroOneValue, hz]
+        cases v <;> simp [deviation, this]
     split at h'
     · grp
     · obtain ⟨b1, hb1, h2⟩ := Outcome.bind_eq_ok.mp h'
@@ -594,27 +595,40 @@ def boolText (P : Prims) (v : V) : Outcome String :=
   | .bytes .bytes _ bs => decodeB P true bs
   | _ => pyStr P v
 
-/-- **C12_ndl_bool**: under no_data_loss only unambiguous booleans become bool: a bool, a number equal to
-0 / 1, or a text whose lower-case form is in the generated FALSE_VALUES / TRUE_VALUES tables. -/
+/-- **C12_ndl_bool**: under no_data_loss only unambiguous booleans become bool: a bool (returned as is); the
+int 0 / 1 or a float / Decimal / complex whose exact value (`numValueIs`, from `m·2^e` / `±c·10^e`) is 0 / 1,
+giving False / True accordingly; or a text (`boolText`: a str, strictly decoded bytes, or the `str()` of the
+value) whose lower-case form is in the generated FALSE_VALUES / TRUE_VALUES tables. -/
 theorem C12_ndl_bool (P : Prims) (n : Bool) (v r : V) (h : Conv.toBool P ⟨n, true⟩ v = .ok r) :
-    r = v ∨ (r = .bool true ∧ eqSmall v 1 = .ok true) ∨ (r = .bool false ∧ eqSmall v 0 = .ok true) ∨
+    ((∃ b, v = .bool b) ∧ r = v) ∨
+    (∃ i : Int, (i = 0 ∨ i = 1) ∧ r = .bool (i == 1) ∧ ((∃ c, v = .int c i) ∨ numValueIs v i = true)) ∨
     ∃ s, boolText P v = .ok s ∧
       ((r = .bool false ∧ Utv.Gen.Tables.FALSE_VALUES.contains (pyLower s) = true) ∨
        (r = .bool true ∧ Utv.Gen.Tables.TRUE_VALUES.contains (pyLower s) = true)) := by
   unfold Conv.toBool at h
   split at h
-  · left; simpa using h.symm
-  · obtain ⟨b1, hb1, h2⟩ := Outcome.bind_eq_ok.mp h
+  · left; exact ⟨⟨_, rfl⟩, by simpa using h.symm⟩
+  · rename_i hnb
+    obtain ⟨b1, hb1, h2⟩ := Outcome.bind_eq_ok.mp h
+    have num : ∀ i : Int, (i = 0 ∨ i = 1) → eqSmall v i = .ok true → r = .bool (i == 1) →
+        (∃ i : Int, (i = 0 ∨ i = 1) ∧ r = .bool (i == 1) ∧ ((∃ c, v = .int c i) ∨ numValueIs v i = true)) := by
+      intro i hi he hr
+      rcases eqSmall_spec v i he with ⟨b, hv, _⟩ | hc | hz
+      · exact absurd hv (hnb b)
+      · exact ⟨i, hi, hr, Or.inl hc⟩
+      · exact ⟨i, hi, hr, Or.inr hz⟩
     split at h2
-    · rename_i hb; subst hb; right; left; exact ⟨by simpa using h2.symm, hb1⟩
+    · rename_i hb; subst hb; right; left
+      exact num 1 (Or.inr rfl) hb1 (by simpa using h2.symm)
     · obtain ⟨b0, hb0, h3⟩ := Outcome.bind_eq_ok.mp h2
       split at h3
-      · rename_i hb; subst hb; right; right; left; exact ⟨by simpa using h3.symm, hb0⟩
+      · rename_i hb; subst hb; right; left
+        exact num 0 (Or.inl rfl) hb0 (by simpa using h3.symm)
       · split at h3
         · simp at h3
         · obtain ⟨d, hd, h4⟩ := Outcome.bind_eq_ok.mp h3
           obtain ⟨s, hs, h5⟩ := Outcome.bind_eq_ok.mp h4
-          right; right; right
+          right; right
           refine ⟨s, ?_, ?_⟩
           · unfold boolText
             split at hd
@@ -712,9 +726,10 @@ theorem C12_ndl_no_collapse (P : Prims) (E : Env) (n : Bool) (t : Target) (k : S
   case uuid =>
     simp [runConv, toUuid, hT] at h
 
-/-- **C12_ndl_strict_decode**: under no_data_loss `_from_byte_like` yields exactly what the *strict* decoder
+/-- helper (unfolds `fromByteLike`; the converter-level statement is `C12_ndl_strict_decode_conv`): under
+no_data_loss `_from_byte_like` yields exactly what the *strict* decoder
 accepts (a byte string that is not valid UTF-8 is never turned into text). -/
-theorem C12_ndl_strict_decode (P : Prims) (n : Bool) (k : BytesK) (c : Nat) (bs : List UInt8) (d : V)
+theorem fromByteLike_ndl_strict (P : Prims) (n : Bool) (k : BytesK) (c : Nat) (bs : List UInt8) (d : V)
     (h : fromByteLike P ⟨n, true⟩ (.bytes k c bs) = .ok d) : ∃ s, d = .str 0 s ∧ decodeB P true bs = .ok s := by
   simp only [fromByteLike] at h
   obtain ⟨s, hs, hd⟩ := Outcome.bind_eq_ok.mp h
@@ -748,12 +763,14 @@ theorem C12_ndl_date_midnight (P : Prims) (E : Env) (n : Bool) (v r : V)
 /-! ### parse level: tuple excess, unknown keys, list input of a data class -/
 
 open Utv.C12M in
-/-- **C12_ndl_addition**: `Options(no_data_loss=True)` never leaves `addition` unset / None: unknown keys are
-rejected unless the caller explicitly asked to keep them. -/
-theorem C12_ndl_addition (a : Addition) :
+/-- **C12_ndl_addition**: `Options(no_data_loss=True)` never leaves `addition` unset / None, and then a key the
+class does not take is rejected — an unknown name as well as the name of an excluded (private / ClassVar)
+attribute — unless the caller explicitly asked to keep additions (`addition=True`; excluded names are
+then dropped, as without the preference). -/
+theorem C12_ndl_addition (a : Addition) (excluded : Bool) :
     normAddition true a ≠ .unset ∧ normAddition true a ≠ .none ∧
-    (a ≠ .yes → unknownKey (normAddition true a) = .rejected) := by
-  cases a <;> decide
+    (a ≠ .yes → unknownKey excluded (normAddition true a) = .rejected) := by
+  cases a <;> cases excluded <;> decide
 
 open Utv.C12M in
 /-- **C12_ndl_tuple_excess**: under no_data_loss every item beyond the declared prefix is reported
@@ -1038,10 +1055,11 @@ theorem C12_union_mono_partial (conv : Flags → Target → V → Outcome V) (f 
   · exact unionStages_ndl _ _ n v r h
 
 open Utv.C12M in
-/-- **C12_union_member_isolation**: each member of a pass runs in its own sub-context, so a pass is "the first
+/-- **C12_union_member_isolation_restates_model** (a property of the hand model `runMember`, tied by the Union
+cases of the correspondence run): each member of a pass runs in its own sub-context, so a pass is "the first
 member that converts in a clean context" — whether a member is a Rule (which would trip over an error left in
 a shared context) does not matter. -/
-theorem C12_union_member_isolation (ms : List (Bool × Outcome V)) :
+theorem C12_union_member_isolation_restates_model (ms : List (Bool × Outcome V)) :
     passFresh ms = passFresh (ms.map fun m => (false, m.2)) := by
   induction ms with
   | nil => rfl
@@ -1113,25 +1131,301 @@ theorem C12_ndl_dataclass_instances (isExact isInst : V → Bool) (allowSub n : 
       | _ => simpa [dataclassStep] using h
     · cases v <;> simpa [dataclassStep] using h
 
+/-! ### further promise theorems: bool / complex / enum targets, converter-level strict decoding, unwrapped numbers,
+the data-class input under the running transformer's preferences -/
+
+/-- law of CPython's `str()` the bool clause needs (audited every run): the text of a list / tuple / set is never
+one of the boolean words -/
+def StrOfSeqLaw (P : Prims) : Prop :=
+  ∀ k c xs s, P.strOf (.seq k c xs) = .ok s →
+    Utv.Gen.Tables.FALSE_VALUES.contains (pyLower s) = false ∧ Utv.Gen.Tables.TRUE_VALUES.contains (pyLower s) = false
+
+/-- **C12_ndl_no_collapse_bool**: under no_data_loss no list / tuple / set / deque becomes a bool -/
+theorem C12_ndl_no_collapse_bool (P : Prims) (hl : StrOfSeqLaw P) (n : Bool) (k : SeqK) (c : Nat) (xs : List V) (r : V) :
+    Conv.toBool P ⟨n, true⟩ (.seq k c xs) ≠ .ok r := by
+  intro h
+  cases n
+  · simp [Conv.toBool, eqSmall, num?, pyStr] at h
+    obtain ⟨s, hs, h2⟩ := Outcome.bind_eq_ok.mp h
+    obtain ⟨hf, ht⟩ := hl k c xs s hs
+    simp at hf ht
+    simp [hf, ht] at h2
+  · simp [Conv.toBool, eqSmall, num?] at h
+
+/-- **C12_ndl_no_collapse_complex**: the only multi-element collection `to_complex` takes under no_data_loss is the
+documented pair form `(re, im)` — `complex(*data)`, both items used, nothing dropped -/
+theorem C12_ndl_no_collapse_complex (P : Prims) (E : Env) (n : Bool) (c' : Nat) (k : SeqK) (c : Nat) (xs : List V) (r : V)
+    (hm : multi (.seq k c xs) = true) (hl : xs.length > 1)
+    (h : toComplex P E ⟨n, true⟩ c' (.seq k c xs) = .ok r) : n = false ∧ k = .tuple ∧ xs.length = 2 := by
+  have ha := attemptFrom_ndl_multi E k c xs hm hl
+  have hT : isInstT (V.seq k c xs) (.cls .complex c') = false := by
+    cases c' <;> cases k <;> simp [isInstT, isInst, V.cls?, Base.sub, SeqK.base]
+  cases n
+  · simp only [toComplex, hT, Bool.false_eq_true, if_false] at h
+    split at h
+    · rename_i c'' a b heq
+      cases heq
+      exact ⟨rfl, rfl, rfl⟩
+    · simp [attemptFromNumber, ha] at h
+  · have hi : ∀ b, b = Base.int ∨ b = .float ∨ b = .decimal ∨ b = .str → isInst (V.seq k c xs) b = false := by
+      intro b hb; rcases hb with rfl | rfl | rfl | rfl <;> cases k <;> simp [isInst, V.cls?, Base.sub, SeqK.base]
+    simp [toComplex, hT, fromByteLike, hi] at h
+
+theorem enumCall_ok (E : Env) (k : Nat) (v r : V) (hc : enumCall E k v = .ok r) :
+    ∃ decl i, E.enum? k = some decl ∧ r = .enum k i ∧
+      ∃ hi : i < decl.members.length, pyeq decl.members[i].2 v = true := by
+  unfold enumCall at hc
+  cases hd : E.enum? k with
+  | none => simp [hd] at hc
+  | some decl =>
+    simp only [hd] at hc
+    split at hc
+    · simp at hc
+    · cases hi : decl.members.findIdx? (fun m => pyeq m.2 v) with
+      | none => simp [hi] at hc
+      | some i =>
+        simp only [hi] at hc
+        obtain ⟨hlt, hp, _⟩ := List.findIdx?_eq_some_iff_getElem.mp hi
+        exact ⟨decl, i, rfl, by simpa using hc.symm, hlt, hp⟩
+
+/-- **C12_ndl_no_collapse_enum**: under no_data_loss a multi-element collection reaches an Enum member only by
+value — the member's value `==` the whole collection; it is never reduced to its first item -/
+theorem C12_ndl_no_collapse_enum (P : Prims) (E : Env) (n : Bool) (k' : Nat) (k : SeqK) (c : Nat) (xs : List V) (r : V)
+    (hm : multi (.seq k c xs) = true) (hl : xs.length > 1)
+    (h : toEnum P E ⟨n, true⟩ k' (.seq k c xs) = .ok r) :
+    ∃ decl i, E.enum? k' = some decl ∧ r = .enum k' i ∧
+      ∃ hi : i < decl.members.length, pyeq decl.members[i].2 (.seq k c xs) = true := by
+  cases n
+  · simp only [toEnum, Bool.false_eq_true, if_false] at h
+    cases hd : E.enum? k' with
+    | none => simp [hd] at h
+    | some decl =>
+      simp only [hd] at h
+      have hb : ∀ r', enumBody P E ⟨false, true⟩ k' decl (.seq k c xs) = .ok r' → enumCall E k' (.seq k c xs) = .ok r' := by
+        intro r' hb
+        unfold enumBody at hb
+        split at hb
+        · rename_i b hmt
+          obtain ⟨value, hv, hc⟩ := Outcome.bind_eq_ok.mp hb
+          unfold convBase at hv
+          split at hv
+          · simp at hv; subst hv; exact hc
+          · exfalso
+            have ha := attemptFrom_ndl_multi E k c xs hm hl
+            split at hv
+            · simp [toInteger, attemptFromNumber, ha] at hv
+            · simp [toFloat, attemptFromNumber, ha] at hv
+            · simp [toStr, ha] at hv
+            · simp at hv
+        · exact hb
+      cases hbo : enumBody P E ⟨false, true⟩ k' decl (.seq k c xs) with
+      | ok r' =>
+        simp only [hbo] at h
+        simp at h; subst h
+        obtain ⟨decl', i, hd', hr, hi⟩ := enumCall_ok E k' _ _ (hb r' hbo)
+        rw [hd] at hd'; cases hd'
+        exact ⟨decl, i, rfl, hr, hi⟩
+      | perr e => simp [hbo, enumNameFallback] at h
+      | escape e => simp [hbo, enumNameFallback] at h
+      | diverge => simp [hbo] at h
+      | unmodelled w => simp [hbo] at h
+  · simp only [toEnum, if_true] at h
+    exact enumCall_ok E k' _ _ h
+
+open Utv.C12M in
+/-- **C12_dataclass_input_mono_partial** (partial in `dataclass-list-under-nec`): what reaches `cls.__init__` of a data
+class under the running transformer's preferences `fr` reaches it without them, unchanged — outside
+`KnownDefect.dataclassListNec` (a list / tuple input under no_explicit_cast); `fc`: the data class's own options. -/
+theorem C12_dataclass_input_mono_partial (P : Prims) (E : Env) (fr fc : Flags) (v r : V)
+    (hk : KnownDefect.dataclassListNec fr v = false)
+    (h : dataclassInput P E fr fc v = .ok r) : dataclassInput P E ⟨false, false⟩ fc v = .ok r := by
+  have hu : ∀ d, dataclassUnwrap fr v = .ok d → dataclassUnwrap ⟨false, false⟩ v = .ok d := by
+    intro d hd
+    obtain ⟨n, dl⟩ := fr
+    cases n
+    · cases dl
+      · exact hd
+      · exact (C12_ndl_dataclass_list false .list 0 .none .none [] (Or.inl rfl)).2 v d hd
+    · cases v with
+      | seq k c xs =>
+        simp [KnownDefect.dataclassListNec] at hk
+        simp [dataclassUnwrap, hk] at hd ⊢
+        exact hd
+      | _ => simpa [dataclassUnwrap] using hd
+  unfold dataclassInput at h ⊢
+  obtain ⟨d, hd, h2⟩ := Outcome.bind_eq_ok.mp h
+  simp only [hu d hd, Outcome.ok_bind]
+  exact h2
+
+/-- **C12_ndl_int_unwrapped**: the same for whatever `_attempt_from_number` digs out (a one-element collection, an
+enum member's value, a timestamp of a datetime / timedelta): if that is a float or Decimal `d`, the int obtained
+under no_data_loss is the exact value of `d` -/
+theorem C12_ndl_int_unwrapped (P : Prims) (E : Env) (c : Nat) (v d r : V)
+    (hv : (match v with | .bool _ => false | .int _ _ => false | _ => true) = true)
+    (hfd : (match d with | .float _ _ => true | .dec _ _ => true | _ => false) = true)
+    (hd : attemptFromNumber P E ⟨false, true⟩ v = .ok d)
+    (h : toInteger P E ⟨false, true⟩ c v = .ok r) : ∃ i, r = .int c i ∧ exactInt? d = some i := by
+  have h' : intAfter P ⟨false, true⟩ c d = .ok r := by
+    cases v <;> simp at hv <;> simpa [toInteger, hd] using h
+  have hnot : isInstT d (.cls .int c) = false := by
+    cases d <;> simp at hfd <;> cases c <;> simp [isInstT, isInst, V.cls?, Base.sub]
+  have : intFinish P ⟨false, true⟩ c d = .ok r := by
+    cases d <;> simp at hfd <;> simpa [intAfter, hnot] using h'
+  exact intFinish_exact P false c d r hfd this
+
+/-- converters that decode a bytes-like input -/
+def decodingConv : Conv → Bool
+  | .str | .int | .float | .decimal | .complex | .datetime | .date | .timedelta | .time | .array | .dict => true
+  | _ => false
+
+/-- **C12_ndl_strict_decode_conv**: at converter level: under no_data_loss a bytes / bytearray / memoryview value
+is converted by a decoding converter only if the *strict* decoder accepts it -/
+theorem C12_ndl_strict_decode_conv (P : Prims) (E : Env) (n : Bool) (t : Target) (k : BytesK) (c : Nat)
+    (bs : List UInt8) (cv : Conv) (r : V) (hcv : decodingConv cv = true)
+    (h : runConv P E ⟨n, true⟩ t (.bytes k c bs) cv = .ok r) : ∃ s, decodeB P true bs = .ok s := by
+  have key : ∀ {α} (f : String → Outcome α) (x : α), (decodeB P true bs >>= f) = .ok x → ∃ s, decodeB P true bs = .ok s := by
+    intro α f x hx
+    obtain ⟨s, hs, _⟩ := Outcome.bind_eq_ok.mp hx
+    exact ⟨s, hs⟩
+  have hi : ∀ b, isInst (V.bytes k c bs) b = (k.base.sub b) := by intro b; simp [isInst, V.cls?]
+  have hT : ∀ b c', b ≠ Base.bytes → b ≠ .bytearray → b ≠ .memoryview → isInstT (V.bytes k c bs) (.cls b c') = false := by
+    intro b c' h1 h2 h3
+    cases c' <;> cases k <;> cases b <;> simp_all [isInstT, isInst, V.cls?, Base.sub, BytesK.base]
+  have fb : ∀ f' : Flags, f'.ndl = true → ∀ {α} (g : V → Outcome α) (x : α),
+      (fromByteLike P f' (V.bytes k c bs) >>= g) = .ok x → ∃ s, decodeB P true bs = .ok s := by
+    intro f' hf α g x hx
+    obtain ⟨d, hd, _⟩ := Outcome.bind_eq_ok.mp hx
+    simp only [fromByteLike, hf] at hd
+    exact key _ _ hd
+  cases cv <;> simp [decodingConv] at hcv
+  case str =>
+    cases n
+    · simp only [runConv, toStr, attemptFrom, Bool.false_eq_true, if_false, multi, Outcome.ok_bind] at h
+      exact fb _ rfl _ _ h
+    · simp only [runConv, toStr, attemptFrom, if_true, Outcome.ok_bind] at h
+      exact fb _ rfl _ _ h
+  all_goals
+    have fb2 : ∀ f' : Flags, f'.ndl = true → ∀ {α β} (g : V → Outcome α) (g' : α → Outcome β) (x : β),
+        ((fromByteLike P f' (V.bytes k c bs) >>= g) >>= g') = .ok x → ∃ s, decodeB P true bs = .ok s := by
+      intro f' hf α β g g' x hx
+      obtain ⟨y, hy, _⟩ := Outcome.bind_eq_ok.mp hx
+      exact fb f' hf g y hy
+  case int =>
+    cases n
+    · simp only [runConv, toInteger, attemptFromNumber, attemptFrom, Bool.false_eq_true, if_false, Outcome.ok_bind] at h
+      exact fb2 _ rfl _ _ _ h
+    · simp [runConv, toInteger, hi, Base.sub] at h
+      cases k <;> simp [BytesK.base] at h
+  case float =>
+    cases n
+    · simp only [runConv, toFloat, attemptFromNumber, attemptFrom, Bool.false_eq_true, if_false, Outcome.ok_bind] at h
+      exact fb2 _ rfl _ _ _ h
+    · simp [runConv, toFloat, hi, Base.sub] at h
+      cases k <;> simp [BytesK.base] at h
+  case decimal =>
+    cases n
+    · simp only [runConv, toDecimal, attemptFromNumber, attemptFrom, Bool.false_eq_true, if_false, Outcome.ok_bind] at h
+      obtain ⟨y, hy, _⟩ := Outcome.bind_eq_ok.mp h
+      exact fb _ rfl _ _ hy
+    · simp only [runConv, toDecimal, if_true] at h
+      obtain ⟨y, hy, _⟩ := Outcome.bind_eq_ok.mp h
+      exact fb _ rfl _ _ hy
+  case complex =>
+    simp only [runConv, toComplex, hT .complex _ (by decide) (by decide) (by decide), Bool.false_eq_true, if_false] at h
+    cases n
+    · simp only [attemptFromNumber, attemptFrom, Bool.false_eq_true, if_false, Outcome.ok_bind] at h
+      exact fb2 _ rfl _ _ _ h
+    · simp only [if_true] at h
+      exact fb _ rfl _ _ h
+  case datetime =>
+    simp only [runConv, toDatetime, hT .datetime _ (by decide) (by decide) (by decide), Bool.false_eq_true, if_false] at h
+    have hnum : (isInst (V.bytes k c bs) Base.int || isInst (V.bytes k c bs) Base.float || isInst (V.bytes k c bs) Base.decimal) = false := by
+      cases k <;> simp [isInst, V.cls?, Base.sub, BytesK.base]
+    cases n
+    · simp only [attemptFrom, Bool.false_eq_true, if_false, Outcome.ok_bind, hnum] at h
+      exact fb _ rfl _ _ h
+    · simp only [attemptFrom, if_true, Outcome.ok_bind, hnum, Bool.false_eq_true, if_false] at h
+      exact fb _ rfl _ _ h
+  case date =>
+    simp only [runConv, toDate] at h
+    obtain ⟨dt, hdt, _⟩ := Outcome.bind_eq_ok.mp h
+    simp only [toDatetime, hT .datetime _ (by decide) (by decide) (by decide), Bool.false_eq_true, if_false] at hdt
+    have hnum : (isInst (V.bytes k c bs) Base.int || isInst (V.bytes k c bs) Base.float || isInst (V.bytes k c bs) Base.decimal) = false := by
+      cases k <;> simp [isInst, V.cls?, Base.sub, BytesK.base]
+    cases n
+    · simp only [attemptFrom, Bool.false_eq_true, if_false, Outcome.ok_bind, hnum] at hdt
+      exact fb _ rfl _ _ hdt
+    · simp only [attemptFrom, if_true, Outcome.ok_bind, hnum, Bool.false_eq_true, if_false] at hdt
+      exact fb _ rfl _ _ hdt
+  case timedelta =>
+    simp only [runConv, toTimedelta, hT .timedelta _ (by decide) (by decide) (by decide), Bool.false_eq_true, if_false] at h
+    cases n
+    · simp only [attemptFrom, Bool.false_eq_true, if_false, Outcome.ok_bind] at h
+      exact fb _ rfl _ _ h
+    · simp only [attemptFrom, if_true, Outcome.ok_bind] at h
+      exact fb _ rfl _ _ h
+  case time =>
+    simp only [runConv, toTime, hT .time _ (by decide) (by decide) (by decide), Bool.false_eq_true, if_false] at h
+    cases n
+    · simp only [attemptFrom, Bool.false_eq_true, if_false, Outcome.ok_bind, if_true] at h
+      exact fb _ rfl _ _ h
+    · simp only [attemptFrom, if_true, Outcome.ok_bind] at h
+      exact fb _ rfl _ _ h
+  case array =>
+    simp only [runConv] at h
+    split at h
+    · split at h
+      · rename_i b c'' kk hkk
+        have hb : ∀ c', isInstT (V.bytes k c bs) (.cls kk.base c') = false := by
+          intro c'; cases c' <;> cases k <;> cases kk <;> simp [isInstT, isInst, V.cls?, Base.sub, BytesK.base, SeqK.base]
+        simp only [toArray, hb, Bool.false_eq_true, if_false, multi] at h
+        cases n
+        · simp only [Bool.false_eq_true, if_false] at h
+          exact fb _ rfl _ _ h
+        · simp at h
+      · simp at h
+    · simp at h
+  case dict =>
+    simp only [runConv, toDict, hT .dict _ (by decide) (by decide) (by decide), Bool.false_eq_true, if_false] at h
+    cases n
+    · simp only [Bool.false_eq_true, if_false, if_true, multi, dictRest, attemptFrom, Outcome.ok_bind] at h
+      exact fb _ rfl _ _ h
+    · simp at h
+
+/-! non-vacuity for the Union theorems with no_explicit_cast alone, and for `ho` / `hm` on an enum target -/
+
+open Utv.C12M in
+example : ∃ (P : Prims) (E : Env) (ts : List Target) (v r : V),
+    KnownDefect.unionNecChoice (transform P E) ⟨true, false⟩ ts v = false ∧
+    unionParse (transform P E) ⟨true, false⟩ ts v = .ok r :=
+  ⟨Pdev, E0, [.cls .float 0, .cls .str 0], .int 0 1, .float 0 (.fin 1 0), by rfl, by rfl⟩
+
+open Utv.C12M in
+example : ∃ (P : Prims) (E : Env) (ts : List Ty) (v r : V),
+    (∃ x, passFresh (ts.map fun t => (t.isRule, parseTy P E ⟨true, true⟩ t v)) = .ok (some x)) ∧
+    unionParseTy P E ⟨true, false⟩ ts v = .ok r :=
+  ⟨Pdev, E0, [.seqOf .list (.plain (.cls .float 0)), .plain (.cls .str 0)], .seq .list 0 [.int 0 1],
+    .seq .list 0 [.float 0 (.fin 1 0)], ⟨_, by rfl⟩, by rfl⟩
+
+example : KnownDefect P0 Eab ⟨true, true⟩ (.enum 0) (.str 0 "B") = false ∧
+    OutsideProof Eab ⟨true, true⟩ (.enum 0) (.str 0 "B") = false ∧
+    (∀ w, transformU P0 Eab ⟨false, false⟩ .throw (.enum 0) (.str 0 "B") ≠ .unmodelled w) ∧
+    transformU P0 Eab ⟨true, true⟩ .throw (.enum 0) (.str 0 "B") = .ok (.enum 0 0) :=
+  ⟨by rfl, by rfl, fun w h => by
+      simp [show transformU P0 Eab ⟨false, false⟩ .throw (.enum 0) (.str 0 "B") = .ok (.enum 0 0) from rfl] at h, by rfl⟩
+
+/-- `StrOfSeqLaw` is satisfiable -/
+example : StrOfSeqLaw P0 := fun _ _ _ _ h => by simp [P0] at h
+
 /-! ### preferences that arrive by inheritance / from an outer class (base.py:41-64, options.py:249-258) -/
 
-/-- `getattr(cls, '__options__', None)` along the MRO (the class itself first): the nearest declaration -/
-def declaredFlags : List (Option Flags) → Flags
-  | [] => ⟨false, false⟩
-  | some f :: _ => f
-  | none :: rest => declaredFlags rest
-
-/-- `Options.make_context(context=outer)`: the outer context's options replace the class's own only when the
-outer ones say `override` and the own ones do not -/
-def contextFlags (own : Flags × Bool) (outer : Option (Flags × Bool)) : Flags :=
-  match outer with
-  | some (fo, true) => if own.2 then own.1 else fo
-  | _ => own.1
-
-/-- **C12_inherited_preferences**: a class that declares no options of its own (at any depth) is parsed under
+open Utv.C12M in
+/-- **C12_inherited_preferences_restates_model** (`declaredFlags` / `contextFlags` are hand models of `getattr` along
+the MRO and of `Options.make_context`, tied to the code by the `inherit` cases of the correspondence run only;
+the theorem unfolds them): a class that declares no options of its own (at any depth) is parsed under
 the preferences of its nearest base — so every promise above applies to it unchanged; and an overriding outer
 class imposes its preferences on a nested class that does not override itself. -/
-theorem C12_inherited_preferences (pre : List (Option Flags)) (f : Flags) (rest : List (Option Flags))
+theorem C12_inherited_preferences_restates_model (pre : List (Option Flags)) (f : Flags) (rest : List (Option Flags))
     (hp : ∀ x ∈ pre, x = none) :
     declaredFlags (pre ++ some f :: rest) = f ∧
     (∀ own fo, contextFlags (own, false) (some (fo, true)) = fo) := by
